@@ -1,11 +1,1004 @@
-//! C18 -- not built yet (stub so the crate layout is stable).
-use crate::engine::report::{Ctx, Report};
-use serde_json::Value;
+//! C18 -- key-chord maps behave as a last-writer-wins, prefix-free dictionary of chords.
+//!
+//! Four exhaustively enumerated spaces, all on the real `surf_n_term::keys` code:
+//!
+//! 1. *Registration histories* (explicit-state BFS, `engine::bfs`): operations = `register` of
+//!    every chord of length 1..=3 over a key alphabet, value = position in the history. The
+//!    real `KeyMap` is rebuilt by replaying the history; the state key is observational
+//!    (`for_each` listing + `lookup` of every chord of length <= 4 over the alphabet). In every
+//!    state: all lookups, the enumeration and `register`'s return value are compared with the
+//!    flat dictionary model (`model::keymap::Dict`).
+//! 2. *Override merging*: `m1.register_override(&m2)` for all ordered pairs of small maps equals
+//!    registering m2's bindings on top of m1 in the model.
+//! 3. *Stateful matcher*: every key string of length <= 6 over {a, b, c, x} fed to a fresh
+//!    `KeyMapHandler` (and to `KeyMap::lookup_state`) for every prefix-free map of up to N chords,
+//!    against exactly the two rules of the statement (`model::keymap::matcher_demands`) plus
+//!    soundness of every answer.
+//! 4. *Parsers*: all strings of up to k tokens over a 24-token alphabet, `f` + 1..=30 digits,
+//!    every key name x modifier set printed and re-parsed, as `Key`, `KeyName`, `KeyChord`:
+//!    never panics; accepted => parse(print(v)) == v.
+use crate::engine::bfs;
+use crate::engine::catch;
+use crate::engine::report::{Ctx, Report, Samples, Violations};
+use crate::engine::util::{hash128, hash64};
+use crate::model::keymap::{matcher_demands, sound, Dict, Displaced, Expect, Lookup};
+use rayon::prelude::*;
+use serde_json::{json, Value};
+use std::collections::{BTreeMap, BTreeSet, HashSet};
+use std::fmt::{Debug, Display};
+use std::str::FromStr;
+use std::sync::atomic::{AtomicU64, Ordering};
+use surf_n_term::keys::KeyMapResult;
+use surf_n_term::{Key, KeyChord, KeyMap, KeyMapHandler, KeyMod, KeyName};
 
-pub fn run(_ctx: &Ctx) -> Result<Report, String> {
-    Err("C18: check not built yet".into())
+// ---------------------------------------------------------------------------------------------
+// key alphabet (the model works on indices into this table)
+
+const NAMES: [&str; 5] = ["a", "b", "^c", "c", "x"];
+/// BFS alphabets
+const A3: [u8; 3] = [0, 1, 2];
+const A2: [u8; 2] = [0, 1];
+/// matcher: chords over {a, b, c}, typed keys over {a, b, c, x}
+const HANDLER_CHORD_KEYS: [u8; 3] = [0, 1, 3];
+const HANDLER_TYPED_KEYS: [u8; 4] = [0, 1, 3, 4];
+
+fn key(i: u8) -> Key {
+    match i {
+        0 => Key::new(KeyName::Char('a'), KeyMod::EMPTY),
+        1 => Key::new(KeyName::Char('b'), KeyMod::EMPTY),
+        2 => Key::new(KeyName::Char('c'), KeyMod::CTRL),
+        3 => Key::new(KeyName::Char('c'), KeyMod::EMPTY),
+        _ => Key::new(KeyName::Char('x'), KeyMod::EMPTY),
+    }
 }
 
-pub fn replay(_w: &Value) -> Result<(bool, String), String> {
-    Err("C18: check not built yet".into())
+fn index_of(k: &Key) -> u8 {
+    (0..NAMES.len() as u8).find(|i| key(*i) == *k).unwrap_or(255)
+}
+
+fn keys_of(chord: &[u8]) -> Vec<Key> {
+    chord.iter().map(|i| key(*i)).collect()
+}
+
+fn show(chord: &[u8]) -> String {
+    chord
+        .iter()
+        .map(|i| NAMES.get(*i as usize).copied().unwrap_or("?"))
+        .collect::<Vec<_>>()
+        .join(" ")
+}
+
+fn unshow(s: &str) -> Result<Vec<u8>, String> {
+    s.split(' ')
+        .filter(|t| !t.is_empty())
+        .map(|t| NAMES.iter().position(|n| *n == t).map(|p| p as u8).ok_or(format!("unknown key {t:?}")))
+        .collect()
+}
+
+/// all chords over `alpha` with length in min..=max, shorter first, then lexicographic
+fn chords(alpha: &[u8], min: usize, max: usize) -> Vec<Vec<u8>> {
+    let mut out = vec![];
+    let mut level: Vec<Vec<u8>> = vec![vec![]];
+    for len in 1..=max {
+        let mut next = vec![];
+        for c in &level {
+            for k in alpha {
+                let mut n = c.clone();
+                n.push(*k);
+                next.push(n);
+            }
+        }
+        if len >= min {
+            out.extend(next.iter().cloned());
+        }
+        level = next;
+    }
+    out
+}
+
+// ---------------------------------------------------------------------------------------------
+// observation of a map (real and model) and comparison
+
+#[derive(Debug, Clone, PartialEq, Eq, Hash)]
+struct Obs {
+    listing: Vec<(Vec<u8>, usize)>,
+    lookups: Vec<Lookup<usize>>,
+}
+
+/// the chords every state is probed with, as model indices and as real keys
+struct Probes {
+    idx: Vec<Vec<u8>>,
+    keys: Vec<Vec<Key>>,
+}
+
+impl Probes {
+    fn new(alpha: &[u8]) -> Self {
+        let idx = chords(alpha, 1, 4);
+        let keys = idx.iter().map(|c| keys_of(c)).collect();
+        Self { idx, keys }
+    }
+}
+
+fn real_lookup(map: &KeyMap<usize>, chord: &[Key]) -> Lookup<usize> {
+    match map.lookup(chord) {
+        KeyMapResult::Success(v) => Lookup::Success(*v),
+        KeyMapResult::Continue => Lookup::Continue,
+        KeyMapResult::Failure => Lookup::Failure,
+    }
+}
+
+fn real_listing(map: &KeyMap<usize>) -> Vec<(Vec<u8>, usize)> {
+    let mut listing = vec![];
+    map.for_each(|chord, v| listing.push((chord.iter().map(index_of).collect::<Vec<u8>>(), *v)));
+    listing
+}
+
+fn observe_real(map: &KeyMap<usize>, probes: &Probes) -> Obs {
+    Obs { listing: real_listing(map), lookups: probes.keys.iter().map(|p| real_lookup(map, p)).collect() }
+}
+
+fn observe_model(d: &Dict<u8, usize>, probes: &Probes) -> Obs {
+    Obs { listing: d.list(), lookups: probes.idx.iter().map(|p| d.lookup(p)).collect() }
+}
+
+fn show_listing(l: &[(Vec<u8>, usize)]) -> String {
+    let v: Vec<String> = l.iter().map(|(c, v)| format!("{}={}", show(c), v)).collect();
+    format!("{{{}}}", v.join(", "))
+}
+
+/// (finding-key suffix, detail) of the first disagreement
+fn compare(real: &Obs, model: &Obs, probes: &Probes) -> Option<(String, String)> {
+    for ((p, r), m) in probes.idx.iter().zip(&real.lookups).zip(&model.lookups) {
+        if r != m {
+            let kind = if r.kind() == m.kind() { "success-with-other-value".to_string() } else { r.kind().to_string() };
+            return Some((
+                format!("lookup:{}->{}", m.kind(), kind),
+                format!("lookup({}) expected {:?}, library gives {:?}; bound chords (model) {}", show(p), m, r, show_listing(&model.listing)),
+            ));
+        }
+    }
+    // enumeration: exactly the bound chords (order is not part of the statement)
+    let mut sorted = real.listing.clone();
+    sorted.sort();
+    if sorted != model.listing {
+        let rs: BTreeSet<_> = sorted.iter().cloned().collect();
+        let ms: BTreeSet<_> = model.listing.iter().cloned().collect();
+        let kind = if rs.len() != sorted.len() {
+            "duplicate"
+        } else if ms.difference(&rs).next().is_some() && rs.difference(&ms).next().is_none() {
+            "missing"
+        } else if rs.difference(&ms).next().is_some() && ms.difference(&rs).next().is_none() {
+            "extra"
+        } else {
+            "different"
+        };
+        return Some((
+            format!("for_each:{kind}"),
+            format!("for_each lists {}, bound chords are {}", show_listing(&real.listing), show_listing(&model.listing)),
+        ));
+    }
+    None
+}
+
+fn displaced_name<K, V>(d: &Displaced<K, V>) -> &'static str {
+    match d {
+        Displaced::Nothing => "nothing",
+        Displaced::Value(_) => "value",
+        Displaced::Extensions(_) => "sub-map",
+    }
+}
+
+fn real_displaced(r: Option<Result<usize, KeyMap<usize>>>) -> Displaced<u8, usize> {
+    match r {
+        None => Displaced::Nothing,
+        Some(Ok(v)) => Displaced::Value(v),
+        Some(Err(sub)) => Displaced::Extensions(real_listing(&sub).into_iter().collect::<BTreeMap<_, _>>()),
+    }
+}
+
+#[derive(Default)]
+struct MapCounters {
+    lookups_success: AtomicU64,
+    lookups_continue: AtomicU64,
+    lookups_failure: AtomicU64,
+    ret_nothing: AtomicU64,
+    ret_value: AtomicU64,
+    ret_submap: AtomicU64,
+    superseding_registrations: AtomicU64,
+}
+
+/// Replay a registration history (values = `offset` + position) on the real map and the model,
+/// comparing `register`'s return value (all steps or the last one only) and, at the end (or
+/// after every step), the complete observation. Returns the real observation.
+fn run_history(
+    probes: &Probes,
+    hist: &[Vec<u8>],
+    every_step: bool,
+    counters: Option<&MapCounters>,
+) -> Result<Obs, (String, String)> {
+    let mut real: KeyMap<usize> = KeyMap::new();
+    let mut model: Dict<u8, usize> = Dict::new();
+    for (i, chord) in hist.iter().enumerate() {
+        let before = model.len();
+        let r = real_displaced(real.register(keys_of(chord), i));
+        let m = model.register(chord, i);
+        let last = i + 1 == hist.len();
+        if every_step || last {
+            if let Some(c) = counters {
+                match &m {
+                    Displaced::Nothing => &c.ret_nothing,
+                    Displaced::Value(_) => &c.ret_value,
+                    Displaced::Extensions(_) => &c.ret_submap,
+                }
+                .fetch_add(1, Ordering::Relaxed);
+                // a registration that removed at least one *other* chord
+                let removed_others = before + 1 - usize::from(matches!(m, Displaced::Value(_))) - model.len();
+                if removed_others > 0 {
+                    c.superseding_registrations.fetch_add(1, Ordering::Relaxed);
+                }
+            }
+            if r != m {
+                return Err((
+                    format!("register-return:{}->{}", displaced_name(&m), displaced_name(&r)),
+                    format!(
+                        "step {}: register({}, {}) should return {:?} (documented: previous value or sub-map at this chord), library returned {:?}",
+                        i, show(chord), i, m, r
+                    ),
+                ));
+            }
+        }
+        if every_step && !last {
+            let ro = observe_real(&real, probes);
+            let mo = observe_model(&model, probes);
+            if let Some((k, d)) = compare(&ro, &mo, probes) {
+                return Err((k, format!("after step {} register({}): {}", i, show(chord), d)));
+            }
+        }
+    }
+    debug_assert!(model.prefix_free());
+    let ro = observe_real(&real, probes);
+    let mo = observe_model(&model, probes);
+    if let Some(c) = counters {
+        for l in &mo.lookups {
+            match l {
+                Lookup::Success(_) => &c.lookups_success,
+                Lookup::Continue => &c.lookups_continue,
+                Lookup::Failure => &c.lookups_failure,
+            }
+            .fetch_add(1, Ordering::Relaxed);
+        }
+    }
+    match compare(&ro, &mo, probes) {
+        Some((k, d)) => Err((k, format!("after {}: {}", hist.iter().map(|c| format!("register({})", show(c))).collect::<Vec<_>>().join(", "), d))),
+        None => Ok(ro),
+    }
+}
+
+fn history_witness(alpha: &[u8], hist: &[Vec<u8>]) -> Value {
+    json!({"kind": "history", "alphabet": show(alpha), "ops": hist.iter().map(|c| show(c)).collect::<Vec<_>>()})
+}
+
+fn run_bfs(
+    ctx: &Ctx,
+    alpha: &[u8],
+    depth: usize,
+    viol: &Violations,
+    samples: &Samples,
+    counters: &MapCounters,
+) -> bfs::BfsStats {
+    let ops = chords(alpha, 1, 3);
+    let probes = Probes::new(alpha);
+    bfs::bfs(ctx, &ops, depth, |hist: &[Vec<u8>]| {
+        match catch(|| run_history(&probes, hist, false, Some(counters))) {
+            Err(p) => {
+                viol.add(format!("map:{}", p.key()), format!("panicked: {} ({}:{})", p.message, p.file, p.line), history_witness(alpha, hist));
+                None
+            }
+            Ok(Err((k, d))) => {
+                viol.add(format!("map:{k}"), d, history_witness(alpha, hist));
+                None
+            }
+            Ok(Ok(obs)) => {
+                samples.offer(hash64(&(alpha, hist)), || {
+                    json!({"space": "history", "ops": hist.iter().map(|c| show(c)).collect::<Vec<_>>(), "for_each": show_listing(&obs.listing)})
+                });
+                Some(hash128(&obs))
+            }
+        }
+    })
+}
+
+// ---------------------------------------------------------------------------------------------
+// override merging
+
+fn build(hist: &[Vec<u8>], offset: usize) -> (KeyMap<usize>, Dict<u8, usize>) {
+    let mut real = KeyMap::new();
+    let mut model = Dict::new();
+    for (i, c) in hist.iter().enumerate() {
+        real.register(keys_of(c), offset + i);
+        model.register(c, offset + i);
+    }
+    (real, model)
+}
+
+/// all histories of depth <= `depth` over the chords of `alpha`, one per distinct resulting map
+fn small_maps(alpha: &[u8], depth: usize, seen: &mut HashSet<Vec<(Vec<u8>, usize)>>, out: &mut Vec<Vec<Vec<u8>>>) {
+    let ops = chords(alpha, 1, 3);
+    let mut level: Vec<Vec<Vec<u8>>> = vec![vec![]];
+    for d in 0..=depth {
+        let mut next = vec![];
+        for h in &level {
+            let (_, m) = build(h, 0);
+            if seen.insert(m.list()) {
+                out.push(h.clone());
+            }
+            if d < depth {
+                for op in &ops {
+                    let mut n = h.clone();
+                    n.push(op.clone());
+                    next.push(n);
+                }
+            }
+        }
+        level = next;
+    }
+}
+
+type Built = (KeyMap<usize>, Dict<u8, usize>);
+
+/// `b1` is m1 (values 0..), `b2` is m2 (values 100..)
+fn check_override(probes: &Probes, b1: &Built, b2: &Built) -> Option<(String, String)> {
+    let (mut r1, mut m1) = (b1.0.clone(), b1.1.clone());
+    r1.register_override(&b2.0);
+    m1.register_override(&b2.1);
+    // fast path without building observations
+    let same = probes.keys.iter().zip(&probes.idx).all(|(k, i)| real_lookup(&r1, k) == m1.lookup(i)) && {
+        let mut l = real_listing(&r1);
+        l.sort();
+        l == m1.list()
+    };
+    if same {
+        return None;
+    }
+    let ro = observe_real(&r1, probes);
+    let mo = observe_model(&m1, probes);
+    compare(&ro, &mo, probes).map(|(k, d)| {
+        (k, format!("m1 = {}, m2 = {}: after m1.register_override(&m2): {}", show_listing(&b1.1.list()), show_listing(&b2.1.list()), d))
+    })
+}
+
+fn show_hist(h: &[Vec<u8>]) -> String {
+    h.iter().map(|c| show(c)).collect::<Vec<_>>().join(", ")
+}
+
+// ---------------------------------------------------------------------------------------------
+// stateful matcher
+
+fn typed_string(index: u64, len: usize) -> Vec<u8> {
+    let mut v = Vec::with_capacity(len);
+    let mut x = index;
+    for _ in 0..len {
+        v.push(HANDLER_TYPED_KEYS[(x % 4) as usize]);
+        x /= 4;
+    }
+    v.reverse();
+    v
+}
+
+#[derive(Default, Clone, Copy)]
+struct HandlerCounts {
+    runs: u64,
+    keys: u64,
+    fire_idle: u64,
+    fire_after_unbound: u64,
+    silent: u64,
+    free: u64,
+    fired: u64,
+}
+
+/// Feed `typed` to a fresh `KeyMapHandler` and to `KeyMap::lookup_state`; returns both answer
+/// sequences.
+fn drive_matcher(map: &KeyMap<usize>, bindings: &[Vec<u8>], typed: &[u8]) -> (Vec<Option<usize>>, Vec<Option<usize>>) {
+    let mut handler: KeyMapHandler<usize> = KeyMapHandler::new();
+    for (i, c) in bindings.iter().enumerate() {
+        handler.register(&keys_of(c), i);
+    }
+    let mut state = Vec::new();
+    let mut a = Vec::with_capacity(typed.len());
+    let mut b = Vec::with_capacity(typed.len());
+    for k in typed {
+        a.push(handler.handle(key(*k)).copied());
+        b.push(map.lookup_state(&mut state, key(*k)).copied());
+    }
+    (a, b)
+}
+
+fn check_matcher(
+    map: &KeyMap<usize>,
+    dict: &Dict<u8, usize>,
+    bindings: &[Vec<u8>],
+    typed: &[u8],
+    counts: &mut HandlerCounts,
+) -> Option<(String, String)> {
+    let (got, via_state) = drive_matcher(map, bindings, typed);
+    let demands = matcher_demands(dict, typed);
+    counts.runs += 1;
+    counts.keys += typed.len() as u64;
+    let ctxt = |i: usize| {
+        format!(
+            "bound {}; typed [{}]; answers {:?}; at key #{} ({})",
+            show_listing(&dict.list()),
+            show(typed),
+            got,
+            i,
+            NAMES[typed[i] as usize]
+        )
+    };
+    if got != via_state {
+        return Some(("handler-differs-from-lookup_state".into(), format!("KeyMapHandler answers {:?}, KeyMap::lookup_state answers {:?} for [{}]", got, via_state, show(typed))));
+    }
+    for (i, d) in demands.iter().enumerate() {
+        if got[i].is_some() {
+            counts.fired += 1;
+        }
+        match d {
+            Expect::Fire { value, after_unbound } => {
+                if *after_unbound {
+                    counts.fire_after_unbound += 1;
+                } else {
+                    counts.fire_idle += 1;
+                }
+                if got[i] != Some(*value) {
+                    let k = if *after_unbound { "no-fire-after-unbound-key" } else { "no-fire-from-idle" };
+                    return Some((k.into(), format!("{}: expected the chord bound to {} to fire, got {:?}", ctxt(i), value, got[i])));
+                }
+            }
+            Expect::Silent => {
+                counts.silent += 1;
+                if got[i].is_some() {
+                    return Some(("fires-before-last-key".into(), format!("{}: expected no firing inside a chord typed from idle, got {:?}", ctxt(i), got[i])));
+                }
+            }
+            Expect::Free => counts.free += 1,
+        }
+        if let Some(v) = got[i] {
+            if !sound(dict, typed, i, &v) {
+                return Some(("unsound-fire".into(), format!("{}: fired {} but no chord ending at this key is bound to it", ctxt(i), v)));
+            }
+        }
+    }
+    None
+}
+
+/// all prefix-free sets of 0..=n chords (as sorted index lists into `all`)
+fn prefix_free_sets(all: &[Vec<u8>], n: usize) -> Vec<Vec<usize>> {
+    fn related(a: &[u8], b: &[u8]) -> bool {
+        let l = a.len().min(b.len());
+        a[..l] == b[..l]
+    }
+    let mut out = vec![vec![]];
+    let mut level: Vec<Vec<usize>> = vec![vec![]];
+    for _ in 0..n {
+        let mut next = vec![];
+        for s in &level {
+            let start = s.last().map(|l| l + 1).unwrap_or(0);
+            for i in start..all.len() {
+                if s.iter().all(|j| !related(&all[*j], &all[i])) {
+                    let mut t = s.clone();
+                    t.push(i);
+                    next.push(t);
+                }
+            }
+        }
+        out.extend(next.iter().cloned());
+        level = next;
+    }
+    out
+}
+
+// ---------------------------------------------------------------------------------------------
+// parsers
+
+#[derive(Debug)]
+enum Parsed {
+    Rejected,
+    /// accepted; the printed form
+    Accepted(String),
+    Violation(String, String),
+}
+
+fn check_parse<T>(ty: &str, input: &str) -> Parsed
+where
+    T: FromStr + Display + PartialEq + Debug,
+{
+    let v = match catch(|| input.parse::<T>()) {
+        Err(p) => return Parsed::Violation(format!("parse:{ty}:{}", p.key()), format!("{ty}::from_str({input:?}) panicked: {} ({}:{})", p.message, p.file, p.line)),
+        Ok(Err(_)) => return Parsed::Rejected,
+        Ok(Ok(v)) => v,
+    };
+    let printed = match catch(|| v.to_string()) {
+        Err(p) => return Parsed::Violation(format!("print:{ty}:{}", p.key()), format!("printing the {ty} parsed from {input:?} panicked: {}", p.message)),
+        Ok(s) => s,
+    };
+    match catch(|| printed.parse::<T>()) {
+        Err(p) => Parsed::Violation(
+            format!("roundtrip:{ty}:{}", p.key()),
+            format!("{ty}::from_str({input:?}) = {v:?} prints as {printed:?}, parsing that panicked: {}", p.message),
+        ),
+        Ok(Err(_)) => Parsed::Violation(
+            format!("roundtrip:{ty}:printed-form-rejected"),
+            format!("{ty}::from_str({input:?}) = {v:?} prints as {printed:?}, which the parser rejects"),
+        ),
+        Ok(Ok(v2)) => {
+            if v2 == v {
+                Parsed::Accepted(printed)
+            } else {
+                Parsed::Violation(
+                    format!("roundtrip:{ty}:printed-form-parses-differently"),
+                    format!("{ty}::from_str({input:?}) = {v:?} prints as {printed:?}, which parses to the different value {v2:?}"),
+                )
+            }
+        }
+    }
+}
+
+const TYPES: [&str; 3] = ["Key", "KeyName", "KeyChord"];
+
+fn check_parse_as(ty: &str, input: &str) -> Parsed {
+    match ty {
+        "Key" => check_parse::<Key>(ty, input),
+        "KeyName" => check_parse::<KeyName>(ty, input),
+        _ => check_parse::<KeyChord>("KeyChord", input),
+    }
+}
+
+/// token alphabet of the string sweep (tokens, not bytes)
+const TOKENS: [&str; 24] = [
+    "a", "f", "1", "9", "0", "+", " ", "\"", "-", "ctrl", "shift", "alt", "press", "capslock", "F", "A", "\u{e9}", "\u{130}", "\u{212a}",
+    "space", "tab", "esc", "up", "f1",
+];
+
+#[derive(Default)]
+struct ParseAcc {
+    inputs: u64,
+    evaluations: u64,
+    accepted: u64,
+    rejected: u64,
+    distinct: HashSet<(u8, String)>,
+    /// finding key -> (input, detail, witness); the shortest (then smallest) input per key
+    viol: BTreeMap<String, (String, String, Value)>,
+}
+
+impl ParseAcc {
+    fn merge(mut self, o: ParseAcc) -> ParseAcc {
+        self.inputs += o.inputs;
+        self.evaluations += o.evaluations;
+        self.accepted += o.accepted;
+        self.rejected += o.rejected;
+        self.distinct.extend(o.distinct);
+        for (k, v) in o.viol {
+            self.note(k, v);
+        }
+        self
+    }
+    fn note(&mut self, key: String, v: (String, String, Value)) {
+        match self.viol.get_mut(&key) {
+            Some(old) => {
+                if (v.0.len(), &v.0) < (old.0.len(), &old.0) {
+                    *old = v;
+                }
+            }
+            None => {
+                self.viol.insert(key, v);
+            }
+        }
+    }
+    fn feed(&mut self, input: &str, types: &[&str]) {
+        self.inputs += 1;
+        for ty in types {
+            self.evaluations += 1;
+            match check_parse_as(ty, input) {
+                Parsed::Rejected => self.rejected += 1,
+                Parsed::Accepted(p) => {
+                    self.accepted += 1;
+                    let t = TYPES.iter().position(|x| x == ty).unwrap_or(0) as u8;
+                    self.distinct.insert((t, p));
+                }
+                Parsed::Violation(k, d) => {
+                    self.note(k, (input.to_string(), d, json!({"kind": "parse", "type": ty, "input": input})));
+                }
+            }
+        }
+    }
+}
+
+fn token_strings_sweep(max_tokens: usize) -> ParseAcc {
+    let n = TOKENS.len() as u64;
+    let mut acc = ParseAcc::default();
+    for len in 0..=max_tokens {
+        let total = n.pow(len as u32);
+        let part = (0..total)
+            .into_par_iter()
+            .fold(ParseAcc::default, |mut acc, idx| {
+                let mut s = String::new();
+                let mut x = idx;
+                for _ in 0..len {
+                    s.push_str(TOKENS[(x % n) as usize]);
+                    x /= n;
+                }
+                acc.feed(&s, &TYPES);
+                acc
+            })
+            .reduce(ParseAcc::default, ParseAcc::merge);
+        acc = acc.merge(part);
+    }
+    acc
+}
+
+fn function_key_inputs() -> Vec<String> {
+    let mut digits: Vec<String> = vec![];
+    for n in 1..=30usize {
+        for d in b'0'..=b'9' {
+            digits.push(std::iter::repeat(d as char).take(n).collect());
+        }
+        digits.push(format!("1{}", "0".repeat(n - 1)));
+    }
+    for b in [u8::MAX as u128, u16::MAX as u128, u32::MAX as u128, u64::MAX as u128, i64::MAX as u128] {
+        for x in [b - 1, b, b + 1] {
+            for z in 0..3 {
+                digits.push(format!("{}{}", "0".repeat(z), x));
+            }
+        }
+    }
+    digits.sort();
+    digits.dedup();
+    let mut out = vec![];
+    for d in &digits {
+        for form in ["f{}", "F{}", "ctrl+f{}", "f{}+shift", "a f{}", "f{} f{}"] {
+            out.push(form.replace("{}", d));
+        }
+    }
+    out
+}
+
+fn key_names(thorough: bool) -> Vec<KeyName> {
+    use KeyName::*;
+    let mut v = vec![
+        Backspace, Delete, Insert, Down, End, Enter, Esc, Home, Left, MouseLeft, MouseMiddle, MouseMove, MouseRight, MouseWheelDown,
+        MouseWheelUp, PageDown, PageUp, Right, Tab, Up,
+    ];
+    for n in 0..=64usize {
+        v.push(F(n));
+    }
+    for n in [99usize, 255, 256, 65535, 65536, u32::MAX as usize, u32::MAX as usize + 1, usize::MAX - 1, usize::MAX] {
+        v.push(F(n));
+    }
+    let top = if thorough { 0x24f } else { 0xff };
+    for c in 0..=top {
+        if let Some(c) = char::from_u32(c) {
+            v.push(Char(c));
+        }
+    }
+    for c in ['\u{df}', '\u{130}', '\u{212a}', '\u{17f}', '\u{1c5}', '\u{3a3}', '\u{3c2}', '\u{fb00}', '\u{2028}', '\u{fffd}', '\u{1f600}', '\u{10ffff}'] {
+        if !v.contains(&Char(c)) {
+            v.push(Char(c));
+        }
+    }
+    v
+}
+
+fn print_witness(name: &KeyName, bits: u32) -> Value {
+    json!({"kind": "print", "name_index": key_names(true).iter().position(|n| n == name), "bits": bits})
+}
+
+/// every key name x every modifier set (all 2^9 bit patterns), printed by the library and fed
+/// back to the parsers
+fn printed_values_sweep(thorough: bool) -> (ParseAcc, u64, u64) {
+    let names = key_names(thorough);
+    let identity = AtomicU64::new(0);
+    let values = AtomicU64::new(0);
+    let acc = names
+        .par_iter()
+        .fold(ParseAcc::default, |mut acc, name| {
+            if let Ok(s) = catch(|| name.to_string()) {
+                values.fetch_add(1, Ordering::Relaxed);
+                if catch(|| s.parse::<KeyName>().ok()).ok().flatten() == Some(*name) {
+                    identity.fetch_add(1, Ordering::Relaxed);
+                }
+                acc.feed(&s, &["KeyName"]);
+            } else {
+                acc.note("print:KeyName:panic".into(), (String::new(), "printing a key name panicked".into(), print_witness(name, 0)));
+            }
+            for bits in 0..512u32 {
+                let k = Key::new(*name, KeyMod::from_bits(bits));
+                match catch(|| k.to_string()) {
+                    Ok(s) => {
+                        values.fetch_add(1, Ordering::Relaxed);
+                        if catch(|| s.parse::<Key>().ok()).ok().flatten() == Some(k) {
+                            identity.fetch_add(1, Ordering::Relaxed);
+                        }
+                        acc.feed(&s, &["Key", "KeyChord"]);
+                    }
+                    Err(p) => acc.note(format!("print:Key:{}", p.key()), (String::new(), format!("printing a key panicked: {}", p.message), print_witness(name, bits))),
+                }
+            }
+            acc
+        })
+        .reduce(ParseAcc::default, ParseAcc::merge);
+    // two-key chords printed by the library
+    let mods = [KeyMod::EMPTY, KeyMod::CTRL];
+    let pair_names: Vec<KeyName> = if thorough { names.clone() } else { names.iter().copied().filter(|n| !matches!(n, KeyName::Char(c) if *c as u32 > 0x7f)).collect() };
+    let singles: Vec<Key> = pair_names.iter().flat_map(|n| mods.iter().map(move |m| Key::new(*n, *m))).collect();
+    let acc2 = singles
+        .par_iter()
+        .fold(ParseAcc::default, |mut acc, k1| {
+            for k2 in &singles {
+                let chord = KeyChord::new(vec![*k1, *k2]);
+                if let Ok(s) = catch(|| chord.to_string()) {
+                    values.fetch_add(1, Ordering::Relaxed);
+                    if catch(|| s.parse::<KeyChord>().ok()).ok().flatten().as_ref() == Some(&chord) {
+                        identity.fetch_add(1, Ordering::Relaxed);
+                    }
+                    acc.feed(&s, &["KeyChord"]);
+                }
+            }
+            acc
+        })
+        .reduce(ParseAcc::default, ParseAcc::merge);
+    (acc.merge(acc2), values.load(Ordering::Relaxed), identity.load(Ordering::Relaxed))
+}
+
+// ---------------------------------------------------------------------------------------------
+
+pub fn run(ctx: &Ctx) -> Result<Report, String> {
+    let viol = Violations::new();
+    let samples = Samples::new(ctx.seed);
+    let counters = MapCounters::default();
+    let mut capped = false;
+
+    let mut timing = serde_json::Map::new();
+    let mut t0 = std::time::Instant::now();
+    let mut lap = |name: &str, timing: &mut serde_json::Map<String, Value>| {
+        timing.insert(name.to_string(), json!((t0.elapsed().as_secs_f64() * 100.0).round() / 100.0));
+        t0 = std::time::Instant::now();
+    };
+    // 1. registration histories
+    let d3 = ctx.tier.pick(3, 4);
+    let d2 = ctx.tier.pick(4, 6);
+    let s3 = run_bfs(ctx, &A3, d3, &viol, &samples, &counters);
+    let s2 = run_bfs(ctx, &A2, d2, &viol, &samples, &counters);
+    capped |= s3.capped || s2.capped;
+
+    lap("bfs", &mut timing);
+    // 2. override merging over all ordered pairs of small maps
+    let probes3 = Probes::new(&A3);
+    let mut maps = vec![];
+    let mut seen = HashSet::new();
+    small_maps(&A3, 2, &mut seen, &mut maps);
+    if ctx.tier.pick(false, true) {
+        small_maps(&A2, 3, &mut seen, &mut maps);
+    }
+    let pairs = AtomicU64::new(0);
+    let nontrivial_pairs = AtomicU64::new(0);
+    let built1: Vec<Built> = maps.iter().map(|h| build(h, 0)).collect();
+    let built2: Vec<Built> = maps.iter().map(|h| build(h, 100)).collect();
+    maps.par_iter().enumerate().for_each(|(i1, h1)| {
+        if ctx.over_cap() {
+            return;
+        }
+        pairs.fetch_add(maps.len() as u64, Ordering::Relaxed);
+        for (i2, h2) in maps.iter().enumerate() {
+            // non-trivial: some binding of m2 is a proper prefix/extension/equal of one in m1
+            if h1.iter().any(|a| h2.iter().any(|b| { let l = a.len().min(b.len()); a[..l] == b[..l] })) {
+                nontrivial_pairs.fetch_add(1, Ordering::Relaxed);
+            }
+            let w = || json!({"kind": "override", "m1": h1.iter().map(|c| show(c)).collect::<Vec<_>>(), "m2": h2.iter().map(|c| show(c)).collect::<Vec<_>>()});
+            match catch(|| check_override(&probes3, &built1[i1], &built2[i2])) {
+                Err(p) => viol.add(format!("override:{}", p.key()), format!("panicked: {}", p.message), w()),
+                Ok(Some((k, d))) => viol.add(format!("override:{k}"), d, w()),
+                Ok(None) => {}
+            }
+        }
+    });
+    capped |= ctx.over_cap();
+
+    lap("override", &mut timing);
+    // 3. stateful matcher
+    let hchords = chords(&HANDLER_CHORD_KEYS, 1, 3);
+    // measured: about 1.8 us per run; quick 10.6 M runs, thorough 0.4 G runs
+    let nmax = ctx.tier.pick(3, 4);
+    let sets = prefix_free_sets(&hchords, nmax);
+    let typed_len = ctx.tier.pick(5usize, 6usize);
+    let hc = sets
+        .par_iter()
+        .map(|set| {
+            let mut counts = HandlerCounts::default();
+            if ctx.over_cap() {
+                return (counts, true);
+            }
+            let bindings: Vec<Vec<u8>> = set.iter().map(|i| hchords[*i].clone()).collect();
+            let (map, dict) = build(&bindings, 0);
+            debug_assert_eq!(dict.len(), bindings.len());
+            for len in 0..=typed_len {
+                for idx in 0..4u64.pow(len as u32) {
+                    let typed = typed_string(idx, len);
+                    let w = || json!({"kind": "handler", "map": bindings.iter().map(|c| show(c)).collect::<Vec<_>>(), "typed": show(&typed)});
+                    match catch(|| check_matcher(&map, &dict, &bindings, &typed, &mut counts)) {
+                        Err(p) => viol.add(format!("handler:{}", p.key()), format!("panicked: {}", p.message), w()),
+                        Ok(Some((k, d))) => viol.add(format!("handler:{k}"), d, w()),
+                        Ok(None) => {
+                            samples.offer(hash64(&(set, idx, len)), || json!({"space": "matcher", "map": show_listing(&dict.list()), "typed": show(&typed)}));
+                        }
+                    }
+                }
+            }
+            (counts, false)
+        })
+        .reduce(
+            || (HandlerCounts::default(), false),
+            |(a, ca), (b, cb)| {
+                (
+                    HandlerCounts {
+                        runs: a.runs + b.runs,
+                        keys: a.keys + b.keys,
+                        fire_idle: a.fire_idle + b.fire_idle,
+                        fire_after_unbound: a.fire_after_unbound + b.fire_after_unbound,
+                        silent: a.silent + b.silent,
+                        free: a.free + b.free,
+                        fired: a.fired + b.fired,
+                    },
+                    ca || cb,
+                )
+            },
+        );
+    capped |= hc.1;
+    let hc = hc.0;
+
+    lap("matcher", &mut timing);
+    // 4. parsers
+    let max_tokens = ctx.tier.pick(3, 5);
+    let tok = token_strings_sweep(max_tokens);
+    let mut fk = ParseAcc::default();
+    for s in function_key_inputs() {
+        fk.feed(&s, &TYPES);
+    }
+    let (pv, printed_values, print_parse_identity) = printed_values_sweep(ctx.tier.pick(false, true));
+    lap("parsers", &mut timing);
+    let mut parse_cov = serde_json::Map::new();
+    let mut parse_evals = 0;
+    let mut parse_accepted = 0;
+    for (name, acc) in [("token_strings", tok), ("function_key_digits", fk), ("printed_values", pv)] {
+        parse_cov.insert(
+            name.to_string(),
+            json!({"inputs": acc.inputs, "evaluations": acc.evaluations, "accepted_and_round_tripped": acc.accepted, "rejected": acc.rejected, "distinct_accepted_values": acc.distinct.len()}),
+        );
+        parse_evals += acc.evaluations;
+        parse_accepted += acc.accepted;
+        let mut some: Vec<&(u8, String)> = acc.distinct.iter().collect();
+        some.sort();
+        if let Some(s) = some.get(some.len() / 2) {
+            samples.force(json!({"space": name, "type": TYPES[s.0 as usize], "accepted_value_prints_as": s.1}));
+        }
+        for (k, (_, d, w)) in acc.viol {
+            viol.add(k, d, w);
+        }
+    }
+
+    let ld = |a: &AtomicU64| a.load(Ordering::Relaxed);
+    let states = s3.states + s2.states;
+    let transitions = s3.transitions + s2.transitions;
+    let pairs = ld(&pairs);
+    let mut r = Report::new("model_checking");
+    r.set("states", states)
+        .set("transitions", transitions)
+        .set("traces_validated_against_impl", transitions + pairs + hc.runs)
+        .set("samples", samples.into_vec())
+        .set("exhaustive", !capped)
+        .set("capped", capped)
+        .set(
+            "bfs",
+            json!([
+                {"alphabet": show(&A3), "operations": chords(&A3, 1, 3).len(), "probe_chords": probes3.idx.len(), "depth": d3, "states": s3.states,
+                 "transitions": s3.transitions, "levels": s3.levels, "fixpoint": s3.fixpoint, "pruned": s3.pruned},
+                {"alphabet": show(&A2), "operations": chords(&A2, 1, 3).len(), "probe_chords": chords(&A2, 1, 4).len(), "depth": d2, "states": s2.states,
+                 "transitions": s2.transitions, "levels": s2.levels, "fixpoint": s2.fixpoint, "pruned": s2.pruned},
+            ]),
+        )
+        .set(
+            "map_observations",
+            json!({
+                "lookups_expected_success": ld(&counters.lookups_success),
+                "lookups_expected_continue": ld(&counters.lookups_continue),
+                "lookups_expected_failure": ld(&counters.lookups_failure),
+                "register_returns_nothing": ld(&counters.ret_nothing),
+                "register_returns_value": ld(&counters.ret_value),
+                "register_returns_submap": ld(&counters.ret_submap),
+                "registrations_superseding_other_chords": ld(&counters.superseding_registrations),
+            }),
+        )
+        .set("override", json!({"maps": maps.len(), "ordered_pairs": pairs, "pairs_with_overlapping_chords": ld(&nontrivial_pairs)}))
+        .set(
+            "matcher",
+            json!({
+                "maps": sets.len(), "max_chords_per_map": nmax, "typed_strings_per_map": (0..=typed_len).map(|l| 4u64.pow(l as u32)).sum::<u64>(),
+                "runs": hc.runs, "keys_fed": hc.keys, "demanded_fire_from_idle": hc.fire_idle, "demanded_fire_after_unbound_key": hc.fire_after_unbound,
+                "demanded_silent": hc.silent, "positions_left_to_soundness_only": hc.free, "observed_firings": hc.fired,
+            }),
+        )
+        .set("parsers", Value::Object(parse_cov))
+        .set("parser_evaluations", parse_evals)
+        .set("parser_accepted", parse_accepted)
+        .set("printed_values", printed_values)
+        .set("printed_values_parsing_back_to_themselves", print_parse_identity)
+        .set("token_alphabet", TOKENS.to_vec())
+        .set("max_tokens", max_tokens)
+        .set("wall_s_by_part", Value::Object(timing))
+        .set("raw_violations", viol.raw_count());
+    r.assume("register's return value is specified by its doc comment: the value or sub-map previously at exactly that chord, else None");
+    r.assume("enumeration order is not part of the statement: for_each is compared as a multiset");
+    r.assume("matcher: idle = fresh matcher or right after a demanded firing; the unbound-key rule is applied where unambiguous (key met with nothing pending, or occurring in no bound chord); elsewhere only soundness of answers is demanded");
+    r.assume("round trip is demanded of accepted strings only; values the parsers can never produce (e.g. NUMLOCK modifier, upper-case Char) are fed as printed strings but need not survive");
+    r.violations = viol.into_vec();
+    Ok(r)
+}
+
+pub fn replay(w: &Value) -> Result<(bool, String), String> {
+    let strs = |v: &Value| -> Result<Vec<Vec<u8>>, String> {
+        v.as_array().ok_or("expected array")?.iter().map(|s| unshow(s.as_str().unwrap_or(""))).collect()
+    };
+    match w["kind"].as_str().ok_or("witness without kind")? {
+        "history" => {
+            let alpha = unshow(w["alphabet"].as_str().ok_or("alphabet")?)?;
+            let hist = strs(&w["ops"])?;
+            let probes = Probes::new(&alpha);
+            Ok(match catch(|| run_history(&probes, &hist, true, None)) {
+                Err(p) => (true, format!("panicked: {} ({}:{})", p.message, p.file, p.line)),
+                Ok(Err((k, d))) => (true, format!("[{k}] {d}")),
+                Ok(Ok(obs)) => (false, format!("history [{}]: library agrees with the dictionary model; for_each {}", show_hist(&hist), show_listing(&obs.listing))),
+            })
+        }
+        "override" => {
+            let h1 = strs(&w["m1"])?;
+            let h2 = strs(&w["m2"])?;
+            let probes = Probes::new(&A3);
+            Ok(match catch(|| check_override(&probes, &build(&h1, 0), &build(&h2, 100))) {
+                Err(p) => (true, format!("panicked: {} ({}:{})", p.message, p.file, p.line)),
+                Ok(Some((k, d))) => (true, format!("[{k}] {d}")),
+                Ok(None) => (false, format!("m1=[{}] overridden by m2=[{}]: library agrees with the model", show_hist(&h1), show_hist(&h2))),
+            })
+        }
+        "handler" => {
+            let bindings = strs(&w["map"])?;
+            let typed = unshow(w["typed"].as_str().ok_or("typed")?)?;
+            let (map, dict) = build(&bindings, 0);
+            let mut counts = HandlerCounts::default();
+            Ok(match catch(|| check_matcher(&map, &dict, &bindings, &typed, &mut counts)) {
+                Err(p) => (true, format!("panicked: {} ({}:{})", p.message, p.file, p.line)),
+                Ok(Some((k, d))) => (true, format!("[{k}] {d}; demands {:?}", matcher_demands(&dict, &typed))),
+                Ok(None) => {
+                    let (got, _) = drive_matcher(&map, &bindings, &typed);
+                    (false, format!("bound {}; typed [{}]: answers {:?} satisfy the demands {:?}", show_listing(&dict.list()), show(&typed), got, matcher_demands(&dict, &typed)))
+                }
+            })
+        }
+        "parse" => {
+            let ty = w["type"].as_str().ok_or("type")?;
+            let input = w["input"].as_str().ok_or("input")?;
+            Ok(match check_parse_as(ty, input) {
+                Parsed::Violation(k, d) => (true, format!("[{k}] expected: no panic, and an accepted value prints to a string parsing back to it; observed: {d}")),
+                Parsed::Rejected => (false, format!("{ty}::from_str({input:?}) is rejected without panic")),
+                Parsed::Accepted(p) => (false, format!("{ty}::from_str({input:?}) accepted, prints as {p:?}, which parses back to the same value")),
+            })
+        }
+        "print" => {
+            let names = key_names(true);
+            let name = *names.get(w["name_index"].as_u64().ok_or("name_index")? as usize).ok_or("name_index out of range")?;
+            let bits = w["bits"].as_u64().ok_or("bits")? as u32;
+            Ok(match catch(|| Key::new(name, KeyMod::from_bits(bits)).to_string()) {
+                Err(p) => (true, format!("printing key (name #{}, modifier bits {bits}) panicked: {}", w["name_index"], p.message)),
+                Ok(s) => (false, format!("prints as {s:?} without panic")),
+            })
+        }
+        other => Err(format!("unknown witness kind {other}")),
+    }
 }
